@@ -1,11 +1,12 @@
-(* C16 - CLP(FD) answers satisfy every posted finite-domain constraint (partial: see level note).
+(* C16 - CLP(FD) answers satisfy every posted finite-domain constraint (partial: see level note; the
+   semantic soundness of every state operation except == between domain variables is proved below).
    Proved per propagator: with all operands ground the constraint is decided exactly (so a
    constraint that is re-run once its operands are bound cannot let a violating answer through),
    and the repaired propagators never store themselves with operands bound during their own
    pruning without running again.  The global statement over whole programs is carried by the
    brute-force oracle of the check. *)
 From Coq Require Import List ZArith Bool Arith.
-From PV Require Import Model.Term Model.Subst Model.Unify Model.FD Model.State Proofs.FDProofs Proofs.FDPropProofs.
+From PV Require Import Model.Term Model.Subst Model.Unify Model.FD Model.State Proofs.FDProofs Proofs.FDPropProofs Model.Engine Proofs.UnifyProofs Proofs.DiseqProofs Proofs.MonoProofs Proofs.DenProofs Proofs.FDDen.
 Import ListNotations.
 Local Open Scope Z_scope.
 
@@ -50,6 +51,36 @@ Example C16_plusfd_xxx :
   end = SFail.
 Proof. vm_compute. reflexivity. Qed.
 
+(* SEMANTIC SOUNDNESS of every propagator, ground or not.
+   MstF th st : the valuation th solves st - its substitution, every stored constraint of every kind
+   (ltefd/plusfd/minusfd/timesfd/diseqfd and the CLP(Z) and tree constraints, read as integer
+   relations on the values th gives their operands) and every domain (the variable's value is an
+   integer of the domain).  SolF st st' : st' extends st's substitution, keeps all sparse domains
+   sorted, and every solution of st' solves st's constraints and domains.
+   For EVERY constraint kind, any operands (ground, partly bound, variables), any fuel, and states whose
+   stored domains are well-formed (WFD; holds initially and is preserved):
+     - posting a constraint gives a state all of whose solutions solve the original state AND satisfy
+       the constraint, whether the propagator decided it, pruned domains and kept it, dropped it
+       because the domains already imply it, or bound its last unknown;
+     - posting a domain puts the operand's value in the domain;
+     - re-running the whole store after the substitution grew never loses a constraint or a domain.
+   So whichever way the remaining variables are later labeled, every posted constraint holds. *)
+Theorem C16_post_constraint_sound : forall c st, WFD st -> sresFC c st (post_constraint c st).
+Proof. exact post_constraint_FC. Qed.
+Theorem C16_post_domain_sound : forall x d st, WFD st -> wf' d -> sresFD st x d (post_domain x d st).
+Proof. exact post_domain_FD. Qed.
+Theorem C16_rerun_sound : forall f st, WFD st -> sresF st (run_constraints f st).
+Proof. exact run_constraints_F. Qed.
+Theorem C16_initial_wf : forall n, WFD (empty_state n).
+Proof. exact WFD_empty. Qed.
+(* unfolding of the result shape, for readers: a successful post *)
+Theorem C16_post_constraint_reading : forall c st st' th, WFD st -> post_constraint c st = SOk st' -> MstF th st' ->
+  choldF th c /\ storeF th (st_cstore st) /\ domF th (st_dstore st) /\ sat th (st_smap st) /\ WFD st'.
+Proof.
+  intros c st st' th W E HM. pose proof (post_constraint_FC c st W) as H. rewrite E in H. cbn in H. destruct H as [S HC].
+  pose proof (MstF_SolF th st st' S HM) as [A [B D]]. split; [apply HC, HM|]. split; [exact B|]. split; [exact D|]. split; [exact A|apply S].
+Qed.
+
 Check C16_plusfd_ground : forall rcs rc id st u v w a b r,
   num (wk (st_smap st) u) a -> num (wk (st_smap st) v) b -> num (wk (st_smap st) w) r ->
   run_constraint rcs rc id (KPlus u v w) st = if Z.eqb (a + b) r then SOk st else SFail.
@@ -59,3 +90,8 @@ Print Assumptions C16_timesfd_ground.
 Print Assumptions C16_ltefd_ground.
 Print Assumptions C16_diseqfd_ground.
 Print Assumptions C16_self_recheck.
+Print Assumptions C16_post_constraint_sound.
+Print Assumptions C16_post_domain_sound.
+Print Assumptions C16_rerun_sound.
+Print Assumptions C16_initial_wf.
+Print Assumptions C16_post_constraint_reading.
